@@ -65,6 +65,39 @@ CLAIMED = {
         note="The solver only decides feasibility of shape bits and the node selector.",
         tech="bounded exhaustive path exploration over solver-enumerated shapes and selectors (z3 feasibility)",
         ref="DESIGN.md section 4 C15"),
+    "C03": dict(
+        text="Bounded symbolic execution of the real recursive-descent parser on N solver-variable token kinds (every "
+             "check/eat/contains decision forks through z3); on every feasible path a reference recogniser/evaluator of the "
+             "documented grammar runs on the same symbols: accept iff accept, and on accept z3 proves the parsed tree equals "
+             "the documented reading for every assignment of the variables.",
+        note="Trusts the reference grammar (DESIGN.md appendix A, written from the parser docstring and the clauses of C03), "
+             "z3, and vf/zeval.py. Token level; tied to strings by rendering counterexamples/validated paths to text and "
+             "re-running the real tokenizer+parser, and by C11. Unspecified corners (CONST! followed by a factor, -CONST!) excluded.",
+        tech="symbolic execution of the parser over symbolic token kinds + differential check against a reference grammar, "
+             "value equality by z3 (bounded token count)",
+        ref="DESIGN.md section 4 C03, appendix A"),
+    "C10": dict(
+        text="The C03 exploration judged for the error contract (tree passing the structure audit, or ParserException/"
+             "ValueError; nothing else), plus the public parse(text) on strings of solver-variable code points, plus sticky "
+             "state: a query after an arbitrary earlier parse and one inductive havoc step over all per-parse attributes.",
+        note="float()/int() of a symbolic digit string are modelled by their documented contract (Horner); RecursionError "
+             "needs nesting deeper than the token bound and is outside the claim as the property says.",
+        tech="symbolic execution of tokenizer+parser over symbolic characters / token kinds, havoc-state inductive step (bounded)",
+        ref="DESIGN.md section 4 C10"),
+    "C11": dict(
+        text="Bounded symbolic execution of the real tokenizer on strings whose characters are solver variables over all "
+             "code points; per path (= class of strings) the token list is compared with a reference tokenizer from the "
+             "statement, token texts / losslessness / padding relation by z3 validity over every string of the class.",
+        note="Tokenizer.functions is replaced by a dict subclass that compares keys with the solver; both padding modes.",
+        tech="symbolic execution over symbolic characters (SymStr) + z3 validity queries (bounded string length)",
+        ref="DESIGN.md section 4 C11"),
+    "C12": dict(
+        text="Every history of parse/tokenize/tokenize-then-edit/clear_cache calls up to the bound over a pool of texts, then "
+             "a query asked twice: result identical to a fresh parser's. Operation selectors are solver variables whose "
+             "every value is explored.",
+        note="The solver decides selector feasibility only (stated); texts from a fixed pool of 6.",
+        tech="bounded exhaustive exploration of call histories via solver-enumerated selectors",
+        ref="DESIGN.md section 4 C12"),
 }
 
 PENDING = {}
